@@ -184,5 +184,198 @@ def main2():
         print(path, t.n, 'rewrites')
 
 
+# --- third batch -------------------------------------------------------------
+import re as _re
+
+
+class Fmt2FString(ast.NodeTransformer):
+    """'..%s..%d..' % (a, b)  ->  f'..{a}..{b:d}..'   (tuple-literal right
+    operands with plain %s / %d / %r / %f specs only)"""
+    n = 0
+
+    def visit_BinOp(self, node):
+        self.generic_visit(node)
+        if isinstance(node.op, ast.Mod) and isinstance(
+                node.left, ast.Constant) and isinstance(
+                node.left.value, str) and isinstance(node.right, ast.Tuple):
+            tmpl = node.left.value
+            specs = _re.findall(r'%(%|[sdr])', tmpl)
+            if '%' in _re.sub(r'%(%|[sdr])', '', tmpl):
+                return node
+            real = [s for s in specs if s != '%']
+            if len(real) != len(node.right.elts) or any(
+                    isinstance(e, ast.Starred) for e in node.right.elts):
+                return node
+            parts = _re.split(r'(%(?:%|[sdr]))', tmpl)
+            values = []
+            it = iter(node.right.elts)
+            for p in parts:
+                if p == '%%':
+                    values.append(ast.Constant('%'))
+                elif p in ('%s', '%d', '%r'):
+                    e = next(it)
+                    if p == '%d':
+                        return node     # %d truncates floats, {:d} raises
+                    values.append(ast.FormattedValue(
+                        value=e, conversion=114 if p == '%r' else -1,
+                        format_spec=None))
+                elif p:
+                    values.append(ast.Constant(p))
+            self.n += 1
+            return ast.JoinedStr(values=values)
+        return node
+
+
+class InlineTemps(ast.NodeTransformer):
+    """x = <expr>; <stmt using x exactly once> (x used nowhere else in the
+    function) -> the use replaced by the expression."""
+    n = 0
+
+    def visit_FunctionDef(self, node):
+        self.generic_visit(node)
+        uses = {}
+        stores = {}
+        for x in ast.walk(node):
+            if isinstance(x, ast.Name):
+                d = stores if isinstance(x.ctx, (ast.Store, ast.Del)) \
+                    else uses
+                d[x.id] = d.get(x.id, 0) + 1
+        params = {a.arg for a in node.args.args + node.args.kwonlyargs}
+
+        def rewrite(body):
+            i = 0
+            while i + 1 < len(body):
+                a, b = body[i], body[i + 1]
+                if isinstance(a, ast.Assign) and len(a.targets) == 1 and \
+                        isinstance(a.targets[0], ast.Name):
+                    nm = a.targets[0].id
+                    if nm not in params and stores.get(nm) == 1 and \
+                            uses.get(nm) == 1 and not isinstance(
+                            b, (ast.For, ast.While, ast.If, ast.With,
+                                ast.Try, ast.FunctionDef)) and not isinstance(
+                            a.value, (ast.Lambda, ast.Yield, ast.Await,
+                                      ast.GeneratorExp)):
+                        hits = [x for x in ast.walk(b) if isinstance(
+                            x, ast.Name) and x.id == nm and isinstance(
+                            x.ctx, ast.Load)]
+                        inner = any(isinstance(x, (
+                            ast.Lambda, ast.ListComp, ast.SetComp,
+                            ast.DictComp, ast.GeneratorExp))
+                            for x in ast.walk(b))
+                        # only when the use is the first thing evaluated:
+                        # the value of a plain assignment / return / call arg
+                        first = None
+                        if isinstance(b, (ast.Assign, ast.Return, ast.Expr)):
+                            v = b.value
+                            if isinstance(v, ast.Name):
+                                first = v
+                            elif isinstance(v, ast.Call) and v.args and \
+                                    isinstance(v.func, (ast.Name,)) and \
+                                    isinstance(v.args[0], ast.Name):
+                                first = v.args[0]
+                            elif isinstance(v, ast.Call) and isinstance(
+                                    v.func, ast.Attribute) and isinstance(
+                                    v.func.value, ast.Name) and \
+                                    v.func.value.id == nm:
+                                first = v.func.value
+                        if len(hits) == 1 and not inner and \
+                                first is hits[0]:
+                            class R(ast.NodeTransformer):
+                                def visit_Name(s_, x):
+                                    if x is hits[0]:
+                                        return a.value
+                                    return x
+                            body[i + 1] = R().visit(b)
+                            del body[i]
+                            self.n += 1
+                            continue
+                i += 1
+            for st in body:
+                for fld in ('body', 'orelse', 'finalbody'):
+                    blk = getattr(st, fld, None)
+                    if isinstance(blk, list) and blk and isinstance(
+                            blk[0], ast.stmt) and not isinstance(
+                            st, (ast.FunctionDef, ast.ClassDef)):
+                        rewrite(blk)
+                for h in getattr(st, 'handlers', []) or []:
+                    rewrite(h.body)
+        rewrite(node.body)
+        return node
+
+
+_main2 = main2
+
+
+def main3():
+    mode = sys.argv[1]
+    T = {'fstring': Fmt2FString, 'inline': InlineTemps}.get(mode)
+    if T is None:
+        return _main2()
+    for path in sys.argv[2:]:
+        tree = ast.parse(open(path).read())
+        t = T()
+        tree = t.visit(tree)
+        ast.fix_missing_locations(tree)
+        open(path, 'w').write(ast.unparse(tree) + '\n')
+        print(path, t.n, 'rewrites')
+
+
+class ReturnTemp(ast.NodeTransformer):
+    """return <non-trivial expr>  ->  result_ = <expr>; return result_
+    (not in generators / lambdas)"""
+    n = 0
+
+    def visit_FunctionDef(self, node):
+        self.generic_visit(node)
+        if any(isinstance(x, (ast.Yield, ast.YieldFrom))
+               for x in ast.walk(node)):
+            return node
+        names = {x.id for x in ast.walk(node) if isinstance(x, ast.Name)}
+        tmp = 'result_'
+        while tmp in names:
+            tmp += '_'
+        outer = self
+
+        def rewrite(body):
+            out = []
+            for st in body:
+                if isinstance(st, ast.Return) and st.value is not None and \
+                        not isinstance(st.value, (ast.Name, ast.Constant)):
+                    out.append(ast.Assign(
+                        targets=[ast.Name(id=tmp, ctx=ast.Store())],
+                        value=st.value))
+                    out.append(ast.Return(value=ast.Name(id=tmp,
+                                                         ctx=ast.Load())))
+                    outer.n += 1
+                    continue
+                if not isinstance(st, (ast.FunctionDef, ast.ClassDef)):
+                    for fld in ('body', 'orelse', 'finalbody'):
+                        blk = getattr(st, fld, None)
+                        if isinstance(blk, list) and blk and isinstance(
+                                blk[0], ast.stmt):
+                            setattr(st, fld, rewrite(blk))
+                    for h in getattr(st, 'handlers', []) or []:
+                        h.body = rewrite(h.body)
+                out.append(st)
+            return out
+        node.body = rewrite(node.body)
+        return node
+
+
+_main3 = main3
+
+
+def main4():
+    if sys.argv[1] != 'rettemp':
+        return _main3()
+    for path in sys.argv[2:]:
+        tree = ast.parse(open(path).read())
+        t = ReturnTemp()
+        tree = t.visit(tree)
+        ast.fix_missing_locations(tree)
+        open(path, 'w').write(ast.unparse(tree) + '\n')
+        print(path, t.n, 'rewrites')
+
+
 if __name__ == '__main__':
-    main2()
+    main4()
